@@ -103,6 +103,10 @@ def run_pair(item, tl):
         for row in range(rows):
             eb = [z3.Bool(f"e{row * n + j}") for j in range(n)]
             assume.append(z3.AtMost(*eb, t) if t < n else z3.BoolVal(True))
+            if item.get("min_weight"):
+                assume.append(z3.AtLeast(*eb, item["min_weight"]))
+            for j, v in enumerate(item.get("e_prefix", [])):
+                assume.append(eb[j] if v else z3.Not(eb[j]))
         try:
             paths = sym_paths(runA, assume, tl, max_paths=maxp)
         except (RuntimeError, ValueError, IndexError, TypeError, AssertionError, KeyError) as e:
@@ -279,6 +283,12 @@ def pairs():
             for fm in fixed:
                 add(s, "bm", fixed_message=fm, max_paths=4000)
                 out[-1]["config"] += f" codeword-of={fm}"
+    # high-capability code: the Berlekamp-Massey recursion only reaches its later branches for t >= 5. BCH(15,1), t = 7,
+    # error weights t-1..t (quick) / 4..t (thorough), split over the first four error positions so that items run in parallel
+    import itertools as _it
+    for pre in _it.product((0, 1), repeat=4):
+        add(spec("BCHCodeEncoder", mu=4, delta=15), "bm", fixed_message=[0], min_weight=tier(6, 4), e_prefix=list(pre), max_paths=20000)
+        out[-1]["config"] += f" codeword-of=[0] weight>={tier(6, 4)} e[0:4]={list(pre)}"
     if TIER == "thorough":
         add(spec("BCHCodeEncoder", mu=4, delta=3), "bm", max_paths=40000, stretch=True)
         add(spec("BCHCodeEncoder", mu=4, delta=5), "bm", rows=2, fixed_message=[1, 0, 0, 1, 1, 0, 1], max_paths=20000, stretch=True)
